@@ -277,7 +277,7 @@ theorem passthrough_declared_error_class (op : Op) (r : Reply) (hm : moduleOk op
 
 /-- An operation declaring 200 (a model), 404 and 503. -/
 def exDeclared : Op :=
-  ⟨"GET".toList, [.lit "/pets/".toList, .var "id".toList], [⟨"id".toList, .path, true⟩], none,
+  ⟨"GET".toList, [.lit "/pets/".toList, .var "id".toList], [⟨"id".toList, .path, true, .plain⟩], none,
    [⟨.num 200, [⟨mtJson, .model "Pet".toList⟩]⟩, ⟨.num 404, []⟩, ⟨.num 503, []⟩]⟩
 
 example : moduleOk exDeclared = true ∧ (∃ x ∈ exDeclared.responses, x.key = .num 404) ∧
